@@ -250,8 +250,8 @@ def _parse_out_default_and_doc(
                 "str": str,
             }[typ](lit)
         )
-    elif default.isdecimal():
-        default = int(default)
+    elif default.isdecimal() or default[:1] in ("-", "+") and default[1:].isdecimal():
+        default = int(default)  # a signed integer is still an integer, not a float
     elif default in frozenset(("True", "False")):
         default = literal_eval(default)
     else:
